@@ -35,6 +35,7 @@ type KnownFinding struct {
 	Status     string `json:"status"` // open | fixed
 	Commit     string `json:"commit,omitempty"`
 	Input      string `json:"failing_input,omitempty"`
+	Detail     string `json:"detail,omitempty"` // if set: the exact failure text of the obligation this finding covers
 }
 
 func loadProperty(verifDir, id string, seen map[string]bool) (*PropertyDef, error) {
@@ -190,10 +191,16 @@ func loadKnown(verifDir string) []KnownFinding {
 	return kf
 }
 
-func matchKnown(kf []KnownFinding, prop, obl string) *KnownFinding {
+// matchKnown: an open finding matches a failed obligation by name and, when the finding records the
+// exact failure (field "detail"), only if the obligation fails in exactly that way - a different
+// failure of the same obligation (one more missing case, say) is a new violation.
+func matchKnown(kf []KnownFinding, prop, obl, failure string) *KnownFinding {
 	for i := range kf {
 		k := &kf[i]
 		if k.Property != prop || k.Status != "open" {
+			continue
+		}
+		if k.Detail != "" && strings.TrimSpace(k.Detail) != strings.TrimSpace(failure) {
 			continue
 		}
 		if k.Obligation == obl || (strings.HasSuffix(k.Obligation, "*") && strings.HasPrefix(obl, strings.TrimSuffix(k.Obligation, "*"))) {
@@ -241,7 +248,7 @@ func CmdCheck(args []string) int {
 	var knownLines []string
 	selftest := map[string]interface{}{}
 	for _, r := range oc.Failed {
-		if k := matchKnown(kf, id, r.Obl.Name); k != nil {
+		if k := matchKnown(kf, id, r.Obl.Name, r.Obl.Failed); k != nil {
 			line := fmt.Sprintf("KNOWN-FINDING: property=%s %s [%s]", id, k.What, r.Obl.Name)
 			dup := false
 			for _, l := range knownLines {
@@ -332,7 +339,7 @@ func writeEvidence(verifDir string, pd *PropertyDef, tier string, seed int, oc *
 		kf := loadKnown(verifDir)
 		nKnown := 0
 		for _, r := range oc.Results {
-			if !r.Obl.Cover && !r.Discharged() && matchKnown(kf, pd.ID, r.Obl.Name) != nil {
+			if !r.Obl.Cover && !r.Discharged() && matchKnown(kf, pd.ID, r.Obl.Name, r.Obl.Failed) != nil {
 				nKnown++
 			}
 		}
